@@ -318,6 +318,7 @@ func main() {
 	om["expected_nan_arithmetic_lanes"] = st.nanArith.Load()
 	// spec-test coverage of the reference
 	var uncovered []string
+	consumerForms := 0
 	seen := map[string]bool{}
 	for _, op := range ops {
 		c := opCategory(op)
@@ -325,6 +326,10 @@ func main() {
 			continue
 		}
 		seen[c] = true
+		if strings.Contains(c, "→") {
+			consumerForms++
+			continue // composite consumer form: its semantics is the base comparison's
+		}
 		n := 0
 		for _, o := range ops {
 			if opCategory(o) == c {
@@ -337,7 +342,8 @@ func main() {
 	}
 	bounds := map[string]any{
 		"opcodes_with_immediates": len(jobs),
-		"distinct_instructions":   len(seen),
+		"distinct_instructions":   len(seen) - consumerForms,
+		"comparison_consumer_forms": consumerForms,
 		"enumerations":            kinds,
 		"alphabet_sizes": map[string]int{"i32": len(intAlphabet(32)), "i64": len(intAlphabet(64)), "f32": len(floatAlphabet(rs.B32)), "f64": len(floatAlphabet(rs.B64)),
 			"i32_extended_unary": len(intExtended(32)), "i64_extended_unary": len(intExtended(64)), "f32_extended_unary": len(floatExtended(rs.B32)), "f64_extended_unary": len(floatExtended(rs.B64)),
